@@ -870,6 +870,14 @@ def _str_of(ex, st, v):
         v = ex.deref(st, v)
     if isinstance(v, VStruct) and v.name in ("Cow", "String"):
         v = v.f[0]
+    if isinstance(v, VOpaque) and isinstance(v.what, tuple) and v.what[0] == "str":
+        t = str(v.what[1])
+        if len(t) >= 2 and t[0] == t[-1] == '"':
+            t = t[1:-1].encode().decode("unicode_escape")
+        arr = z3.K(z3.IntSort(), I(0))
+        for i, ch in enumerate(t):
+            arr = z3.Store(arr, i, ord(ch))
+        return VSeq(arr, I(0), I(len(t)), "char")
     if not isinstance(v, VSeq):
         raise Unsupported("expected a string, got %r" % (v,))
     return v
